@@ -90,6 +90,26 @@ func runC18(c *Ctx) {
 	})
 	// a reset engine must not carry over the noise generator (or table) earlier searches consumed
 	c.guard("R18-sources", func() { r.WithAlias("R10-engine", "R18-sources", func() { c10Engine(c) }) })
+	// a search that leaves its own board dirty makes the next search on that board (the next iteration of the
+	// iterative controller runs on the same fork) depend on what ran before: pushes and pops are balanced on every
+	// path, PopMove is the exact inverse of PushMove, and the no-legal-move verdict is taken back (rules of C03/C08)
+	r.Rule("R18-handback", "a search hands the board it was given back in the state it received it - balanced push/pop on every path, PopMove the exact inverse of PushMove (castled flags, clocks, result, hash included), the no-legal-move verdict taken back - so the iterations of one analysis, which share a fork, all start from the same state (rules of C03 and C08, re-decided here)", 20)
+	c.guard("R18-handback", func() {
+		m := newSearchModel(c, "R18-handback")
+		if m == nil {
+			return
+		}
+		r.WithAlias("R03-balance", "R18-handback", func() { c03Balance(c, m) })
+		if g := newGameModel(c, "R18-handback"); g != nil {
+			r.WithAlias("R08-inverse", "R18-handback", func() { c08Inverse(c, g) })
+		}
+		rec := recursiveSearchFuncs(c, m)
+		m.children = map[*ssa.Function]bool{}
+		for _, f := range rec {
+			m.children[f] = true
+		}
+		r.WithAlias("R03-handback", "R18-handback", func() { c03Handback(c, m, rec) })
+	})
 
 }
 
